@@ -1,6 +1,7 @@
 """k10: rules about code that is NOT in the control flow of the main functions — derived and hand-written trait
 impls, wire/disk record definitions, constants, defaults, build profile. Found necessary by seeded round 6
 (faults placed where a reviewer of put/get/merge/serve would not look)."""
+import json
 import os
 import re
 
@@ -168,4 +169,172 @@ def s24_record_symmetry(ctx):
         for fname, site in read_as.items():
             decoded[pos_of[site]] = fname
         r.add(short, "reader decodes the fields in the order the writer emits them", decoded == emitted, short_span(vb.span), "order %s on both sides" % emitted if decoded == emitted else "writer emits %s, reader decodes %s: bincode is positional, every field after the first difference is read from the wrong bytes" % (emitted, decoded))
+    return r
+
+
+# ---------------------------------------------------------------------------------------------
+# configuration surface: the shipped configuration file and the environment source agree with the decoders
+
+
+def _const_strings(b):
+    keys = []
+
+    def walk(x):
+        if isinstance(x, dict):
+            if x.get("k") == "const" and "bytes" in x:
+                keys.append(bytes.fromhex(x["bytes"]).decode("utf8", "replace"))
+            for v in x.values():
+                walk(v)
+        elif isinstance(x, list):
+            for v in x:
+                walk(v)
+
+    walk(b.rec["blocks"])
+    return keys
+
+
+def _accepted(prog, ty):
+    """keys the Deserialize impl of `ty` accepts: (own keys — field names of a struct / variant names of an enum,
+    keys of the fields of its struct variants)"""
+    own, inner = None, []
+    for b in prog.bodies.values():
+        if not b.path.endswith("::visit_str"):
+            continue
+        if ("Deserialize<'de> for %s>::deserialize::__FieldVisitor as " % ty) in b.path and "visit_enum" not in b.path:
+            own = _const_strings(b)
+        elif ("Deserialize<'de> for %s>::deserialize::__Visitor<'de> as " % ty) in b.path and "::visit_enum::__FieldVisitor as " in b.path:
+            inner += _const_strings(b)
+    return own, inner
+
+
+def _conf_types(prog):
+    out = set()
+    todo = ["conf::Configuration"]
+    while todo:
+        t = todo.pop()
+        if t in out or t not in prog.adts:
+            continue
+        out.add(t)
+        for v in prog.adts[t]["variants"]:
+            for _, fty in v["fields"]:
+                for cand in re.findall(r"[A-Za-z_][A-Za-z0-9_]*(?:::[A-Za-z_][A-Za-z0-9_]*)+", fty):
+                    todo.append(cand)
+    return out
+
+
+def _shipped_config_keys(repo):
+    """(key path, value or None, line) for every assignment in the shipped config.toml, including the commented-out
+    alternatives it documents (`#storage.sync = "always"`)"""
+    import tomllib
+
+    p = os.path.join(repo, "config.toml")
+    if not os.path.exists(p):
+        return None
+    out = []
+    for i, ln in enumerate(open(p, encoding="utf8", errors="replace"), 1):
+        m = re.match(r"^\s*#?\s*((?:[A-Za-z_][A-Za-z0-9_]*)(?:\.[A-Za-z_][A-Za-z0-9_]*)+)\s*=\s*(.+?)\s*$", ln)
+        if not m:
+            continue
+        try:
+            val = tomllib.loads("v = %s" % m.group(2))["v"]
+        except Exception:
+            continue
+        out.append((m.group(1).split("."), val, i))
+    return out
+
+
+def s12c_shipped_config_agrees(ctx):
+    r = RuleResult(
+        "S12c",
+        "the configuration the server binary loads by default (config.toml at the repository root, read through conf::Configuration::get) and the structs it is decoded into agree: every key path the file sets or documents as an alternative resolves, segment by segment from conf::Configuration, to a key the derived decoder of the type at that level accepts, and a string given for an enum-typed setting is one of its accepted variant names. The structs carry #[serde(default)], so a key the decoder does not know is dropped without a word: `storage.sync = \"always\"` in the file and SyncStrategy::None in effect after a field rename",
+        floor=15,
+    )
+    prog = ctx.prog
+    repo = os.environ.get("VERIF_REPO", "/repo")
+    keys = _shipped_config_keys(repo)
+    if keys is None:
+        r.note("no config.toml at the repository root: nothing to compare (the rule then has no instances and its floor fails closed)")
+        return r
+    for path, val, line in keys:
+        ty = "conf::Configuration"
+        ok, why = True, ""
+        walked = []
+        i = 0
+        while i < len(path):
+            seg = path[i]
+            adt = prog.adts.get(ty)
+            if adt is None:
+                ok, why = False, "`%s` continues below `%s`, which is a plain value of type %s" % (".".join(path), ".".join(walked), ty)
+                break
+            own, inner = _accepted(prog, ty)
+            if own is None:
+                r.unrec(".".join(path), "decoder of %s" % ty, "config.toml:%d" % line, "no derived field visitor found")
+                ok = None
+                break
+            if seg not in own:
+                ok, why = False, "`%s` is not a key the decoder of %s accepts (accepted: %s): the setting is silently ignored" % (seg, ty.split("::")[-1], own)
+                break
+            walked.append(seg)
+            if adt.get("is_enum"):
+                # seg names a variant; the remaining segments, if any, are fields of that struct variant / the newtype payload
+                rest = path[i + 1 :]
+                bad = [s for s in rest if s not in inner]
+                if bad:
+                    ok, why = False, "`%s` is not a field of a variant of %s (accepted: %s)" % (bad[0], ty.split("::")[-1], inner)
+                ty = None
+                break
+            fty = dict((f[0], f[1]) for f in adt["variants"][0]["fields"]).get(seg)
+            if fty is None:
+                ty = None
+                break
+            m = re.findall(r"[A-Za-z_][A-Za-z0-9_]*(?:::[A-Za-z_][A-Za-z0-9_]*)+", fty)
+            ty = next((c for c in m if c in prog.adts), fty)
+            i += 1
+        if ok is None:
+            continue
+        if ok and ty in prog.adts and prog.adts[ty].get("is_enum") and isinstance(val, str):
+            own, _ = _accepted(prog, ty)
+            if own is not None and val not in own:
+                ok, why = False, "the value \"%s\" is not a variant name the decoder of %s accepts (accepted: %s)" % (val, ty.split("::")[-1], own)
+        r.add(".".join(path), "= %s resolves to a setting" % json.dumps(val), ok, "config.toml:%d" % line, why)
+    return r
+
+
+def s12d_env_separator(ctx):
+    r = RuleResult(
+        "S12d",
+        "every setting can be named in the environment: the separator given to config::Environment (which splits a variable name into the key path) is non-empty and occurs inside no key the configuration decoders accept — with \"_\" as the separator BITCASK_NET_MAX_CONNECTIONS names net.max.connections, an unknown key that #[serde(default)] drops, and the limit configured there is not the limit in force",
+        floor=1,
+    )
+    prog = ctx.prog
+    types = _conf_types(prog)
+    allkeys = set()
+    for t in types:
+        own, inner = _accepted(prog, t)
+        for k in (own or []) + inner:
+            allkeys.add(k)
+    n = 0
+    for b in shipped_bodies(prog):
+        live = b.live_blocks()
+        for bi, t in b.calls():
+            if bi not in live:
+                continue
+            cn = strip_generics(t.get("callee")) or ""
+            if not re.search(r"(^|::)Environment::separator$", cn) or not cn.startswith("config::"):
+                continue
+            n += 1
+            a = t["args"][1] if len(t["args"]) > 1 else None
+            sep = None
+            o = peel(arg_origin(b, t, 1))
+            if a is not None and a.get("k") == "const" and "bytes" in a:
+                sep = bytes.fromhex(a["bytes"]).decode("utf8", "replace")
+            elif isinstance(o, tuple) and o and o[0] == "const" and isinstance(o[1], dict) and "bytes" in o[1]:
+                sep = bytes.fromhex(o[1]["bytes"]).decode("utf8", "replace")
+            if sep is None:
+                r.unrec(fam_name(b), "Environment::separator argument", where(b, bi), "not a string literal: %s" % origin_str(o)[:80])
+                continue
+            hit = sorted(k for k in allkeys if sep and sep in k)
+            r.add(fam_name(b), "the environment separator splits no key name", bool(sep) and not hit, where(b, bi), "separator \"%s\", %d keys" % (sep, len(allkeys)) if sep and not hit else "separator \"%s\" occurs inside the key(s) %s: these settings cannot be given in the environment, what is given is silently ignored" % (sep, hit[:8]))
+    if n == 0:
+        r.note("no config::Environment source with a separator: nested settings cannot be named in the environment at all")
     return r
